@@ -191,8 +191,16 @@ ASSUME_LOOM = [
     "the crate's generic code is instantiated with a RawMutex built on loom::sync::Mutex (every internal lock/unlock is a scheduling point); parking_lot itself, the AtomicUsize handle counters / alloc::sync::Arc of the shared flavours and the timer clock are std objects that loom does not intercept (no weak-memory exploration for them); non-atomic accesses inside the library are not routed through loom::cell, so loom cannot flag a data race inside the library",
 ]
 WAKE_PROPS = {"C03", "C06", "C10", "C11", "C12", "C13", "C14", "C15"}
-UNBOUNDED_OK = {"sem_mixed_fair", "sem_mixed_unfair", "sem_timeout_fair", "sem_timeout_unfair", "sem_shared_mixed", "event_set_reset_set",
-                "mpmc_abandon_cap1", "mpmc_last_sender_closes", "timer_two_waiters", "oneshot_competing", "broadcast_all"}
+UNBOUNDED_OK = {"sem_mixed_fair", "sem_mixed_unfair", "sem_timeout_fair", "sem_timeout_unfair", "sem_shared_mixed", "sem_try_conserve", "event_set_reset_set",
+                "mpmc_abandon_cap1", "mpmc_last_sender_closes", "timer_two_waiters", "oneshot_competing", "broadcast_all",
+                # tiny scenarios (tens of schedules at bound 2): unbounded DPOR terminates within seconds
+                "swap_mutex_fair", "swap_mutex_unfair", "swap_sem_fair", "swap_sem_unfair", "swap_event", "swap_mpmc_recv", "swap_mpmc_send",
+                "swap_oneshot", "swap_state", "swap_timer", "event_set_vs_reset", "mpmc_last_receiver_clears", "mpmc_refill_race",
+                "mpmc_notified_drop_contended", "mutex_notified_drop_contended_fair", "mutex_notified_drop_contended_unfair",
+                "sem_notified_drop_contended_fair", "sem_notified_drop_contended_unfair", "state_try_receive_contended", "timer_check_contended",
+                "mpmc_transient_clone", "mpmc_receiver_clones", "state_handles_race", "bcast_handles_race", "mpmc_cancel_vs_receive_cap0",
+                "mpmc_cancel_vs_receive_cap1", "mpmc_close_vs_send", "oneshot_shared_send_then_drop", "oneshot_shared_drop_only", "timer_abandon",
+                "mutex_fair_order", "sem_fair_order", "event_two_waiters", "mpmc_stream_consumer"}
 
 
 def loom_scenarios(ctx, pid):
